@@ -27,6 +27,7 @@ type Contract struct {
 	Key      string // "(*LALR1).ResolveConflict" or "PackTable"
 	Props    []string
 	Results  []string
+	Params   []string
 	Clauses  []*Clause
 	File     string
 	Line     int
@@ -38,6 +39,7 @@ type Contract struct {
 }
 
 type Lemma struct {
+	Template  string
 	Pkg       string
 	Name      string
 	Params    string // "st []StateSym, sp int"
@@ -49,6 +51,7 @@ type Lemma struct {
 }
 
 type Axiom struct {
+	Template string
 	Pkg   string
 	Name  string
 	Props []string
@@ -60,6 +63,7 @@ type Axiom struct {
 }
 
 type Def struct {
+	Template                string
 	Pkg, Name, Params, Text string
 	Node                    SpecNode
 	File                    string
@@ -67,6 +71,8 @@ type Def struct {
 }
 
 type ContractSet struct {
+	Renames map[string][][2]string // tag -> identifier renames for clause texts
+	KeyRenames map[string][][2]string
 	Defs   map[string]*Def
 	Funcs  map[string]*Contract // key pkgpath + "::" + Key
 	Order  []string
@@ -79,7 +85,7 @@ var loopRe = regexp.MustCompile(`^loop\s+(\d+)\s*:\s*(.*)$`)
 
 func isKeyword(w string) bool {
 	switch w {
-	case "def", "func", "props", "results", "requires", "ensures", "modifies", "loop", "panics_when", "may_panic", "assert", "assume",
+	case "section", "rename", "renamekey", "params", "def", "func", "props", "results", "requires", "ensures", "modifies", "loop", "panics_when", "may_panic", "assert", "assume",
 		"axiom", "lemma", "trusted", "inline", "ghost", "decreases", "allocates", "induction", "note", "end", "use", "opaque", "bounded", "template", "havoc", "order_independent", "effect", "emits", "after", "invariant", "before_stmt", "after_stmt", "effects_only":
 		return true
 	}
@@ -91,6 +97,7 @@ func (cs *ContractSet) parseFile(pkgPath, fileName string, f *ast.File, lineOf f
 	var cur *Contract
 	var curLemma *Lemma
 	var last *Clause
+	section := ""
 	finish := func() { last = nil }
 	for _, cg := range f.Comments {
 		for _, cm := range cg.List {
@@ -117,11 +124,41 @@ func (cs *ContractSet) parseFile(pkgPath, fileName string, f *ast.File, lineOf f
 			}
 			finish()
 			switch first {
+			case "section":
+				section = strings.TrimSpace(txt[7:])
+				cur, curLemma = nil, nil
+				continue
+			case "rename", "renamekey":
+				f := strings.Fields(txt)
+				if len(f) < 3 {
+					return fmt.Errorf("%s:%d: bad %s", fileName, line, first)
+				}
+				for _, kv := range f[2:] {
+					i := strings.Index(kv, "=")
+					if i < 0 {
+						return fmt.Errorf("%s:%d: bad %s item %q", fileName, line, first, kv)
+					}
+					if first == "rename" {
+						if cs.Renames == nil {
+							cs.Renames = map[string][][2]string{}
+						}
+						cs.Renames[f[1]] = append(cs.Renames[f[1]], [2]string{kv[:i], kv[i+1:]})
+					} else {
+						if cs.KeyRenames == nil {
+							cs.KeyRenames = map[string][][2]string{}
+						}
+						cs.KeyRenames[f[1]] = append(cs.KeyRenames[f[1]], [2]string{kv[:i], kv[i+1:]})
+					}
+				}
+				continue
 			case "func":
 				key := strings.TrimSpace(txt[4:])
-				cur = &Contract{Pkg: pkgPath, Key: key, File: fileName, Line: line}
+				cur = &Contract{Pkg: pkgPath, Key: key, File: fileName, Line: line, Template: section}
 				curLemma = nil
 				k := pkgPath + "::" + key
+				if section != "" {
+					k += "@" + section
+				}
 				if _, dup := cs.Funcs[k]; dup {
 					return fmt.Errorf("%s:%d: duplicate contract for %s", fileName, line, key)
 				}
@@ -136,11 +173,15 @@ func (cs *ContractSet) parseFile(pkgPath, fileName string, f *ast.File, lineOf f
 				if i < 0 || j < i {
 					return fmt.Errorf("%s:%d: bad def header", fileName, line)
 				}
-				d := &Def{Pkg: pkgPath, Name: strings.TrimSpace(rest[:i]), Params: rest[i+1 : j], File: fileName, Line: line}
+				d := &Def{Template: section, Pkg: pkgPath, Name: strings.TrimSpace(rest[:i]), Params: rest[i+1 : j], File: fileName, Line: line}
 				if cs.Defs == nil {
 					cs.Defs = map[string]*Def{}
 				}
-				cs.Defs[pkgPath+"::"+d.Name] = d
+				dk := pkgPath + "::" + d.Name
+				if section != "" {
+					dk += "@" + section
+				}
+				cs.Defs[dk] = d
 				pc := &Clause{Kind: "deftext", Text: strings.TrimSpace(rest[j+3:])}
 				last = pc
 				defer func() { d.Text = pc.Text }()
@@ -154,7 +195,7 @@ func (cs *ContractSet) parseFile(pkgPath, fileName string, f *ast.File, lineOf f
 				if i < 0 || j < i {
 					return fmt.Errorf("%s:%d: bad lemma header", fileName, line)
 				}
-				curLemma = &Lemma{Pkg: pkgPath, Name: strings.TrimSpace(rest[:i]), Params: rest[i+1 : j], File: fileName, Line: line}
+				curLemma = &Lemma{Template: section, Pkg: pkgPath, Name: strings.TrimSpace(rest[:i]), Params: rest[i+1 : j], File: fileName, Line: line}
 				cs.Lemmas = append(cs.Lemmas, curLemma)
 				cur = nil
 				continue
@@ -164,7 +205,7 @@ func (cs *ContractSet) parseFile(pkgPath, fileName string, f *ast.File, lineOf f
 				if m == nil {
 					return fmt.Errorf("%s:%d: bad axiom", fileName, line)
 				}
-				ax := &Axiom{Pkg: pkgPath, Name: m[1], Text: m[3], File: fileName, Line: line}
+				ax := &Axiom{Template: section, Pkg: pkgPath, Name: m[1], Text: m[3], File: fileName, Line: line}
 				if m[2] != "" {
 					ax.Props = splitList(m[2])
 				}
@@ -214,8 +255,8 @@ func (cs *ContractSet) parseFile(pkgPath, fileName string, f *ast.File, lineOf f
 				case "opaque":
 					cur.Opaque = true
 					continue
-				case "template":
-					cur.Template = cl.Text
+				case "params":
+					cur.Params = splitList(cl.Text)
 					continue
 				}
 				cur.Clauses = append(cur.Clauses, cl)
@@ -449,4 +490,102 @@ func replaceSubs(s string, g *SGo) (string, error) {
 		i++
 	}
 	return out.String(), nil
+}
+
+// instantiate template sections for a rendered package with the given tags
+func tagsMatch(template string, tags map[string]bool) bool {
+	if template == "" {
+		return false
+	}
+	for _, t := range strings.Fields(template) {
+		if !tags[t] {
+			return false
+		}
+	}
+	return true
+}
+
+func (cs *ContractSet) instantiate(builderPkg, targetPkg string, tags map[string]bool) {
+	var rn, krn [][2]string
+	for t := range tags {
+		rn = append(rn, cs.Renames[t]...)
+		krn = append(krn, cs.KeyRenames[t]...)
+	}
+	ren := func(s string) string {
+		for _, kv := range rn {
+			re := regexp.MustCompile(`(^|[^A-Za-z_0-9.])` + regexp.QuoteMeta(kv[0]) + `\b`)
+			s = re.ReplaceAllString(s, "${1}"+kv[1])
+		}
+		return s
+	}
+	renKey := func(k string) string {
+		for _, kv := range krn {
+			if k == kv[0] {
+				return kv[1]
+			}
+		}
+		return k
+	}
+	for _, k := range append([]string(nil), cs.Order...) {
+		c := cs.Funcs[k]
+		if c.Pkg != builderPkg || !tagsMatch(c.Template, tags) {
+			continue
+		}
+		n := *c
+		n.Pkg = targetPkg
+		n.Key = renKey(c.Key)
+		n.Template = ""
+		n.Clauses = nil
+		for _, cl := range c.Clauses {
+			c2 := *cl
+			c2.Text = ren(cl.Text)
+			c2.Node = nil
+			n.Clauses = append(n.Clauses, &c2)
+		}
+		nk := targetPkg + "::" + n.Key
+		cs.Funcs[nk] = &n
+		cs.Order = append(cs.Order, nk)
+	}
+	for _, l := range append([]*Lemma(nil), cs.Lemmas...) {
+		if l.Pkg != builderPkg || !tagsMatch(l.Template, tags) {
+			continue
+		}
+		n := *l
+		n.Pkg = targetPkg
+		n.Template = ""
+		n.Clauses = nil
+		for _, cl := range l.Clauses {
+			c2 := *cl
+			c2.Text = ren(cl.Text)
+			c2.Node = nil
+			n.Clauses = append(n.Clauses, &c2)
+		}
+		cs.Lemmas = append(cs.Lemmas, &n)
+	}
+	for _, a := range append([]*Axiom(nil), cs.Axioms...) {
+		if a.Pkg != builderPkg || !tagsMatch(a.Template, tags) {
+			continue
+		}
+		n := *a
+		n.Pkg = targetPkg
+		n.Template = ""
+		n.Text = ren(a.Text)
+		n.Node = nil
+		cs.Axioms = append(cs.Axioms, &n)
+	}
+	var defs []*Def
+	for _, d := range cs.Defs {
+		defs = append(defs, d)
+	}
+	for _, d := range defs {
+		if d.Pkg != builderPkg || !tagsMatch(d.Template, tags) {
+			continue
+		}
+		n := *d
+		n.Pkg = targetPkg
+		n.Template = ""
+		n.Text = ren(d.Text)
+		n.Node = nil
+		cs.Defs[targetPkg+"::"+n.Name] = &n
+	}
 }
